@@ -45,6 +45,7 @@ SnapSet(counts) == {<<counts[i][1], counts[i][2]>> : i \in 1..Len(counts)}
 
 TEvent ==
   /\ E.ev = "Event"
+  /\ ann = ""                 \* an announced tag / error is followed by Snap, Enter or the failing Return, not by another event
   /\ CASE E.kind \in {"Start", "Empty", "Err"} ->
             Reading /\ ~atEof /\ ann' = E.kind /\ UNCHANGED pvars
        [] E.kind \in {"Text", "CData"} ->
